@@ -275,6 +275,9 @@ class Store:
         self.sources = {}
         self.leaf = False
         self.serializer = None
+        # whether the serializer was inferred (from units or a quantity
+        # default) rather than declared
+        self.serializer_inferred = False
         self.topology = {}
         self.topology_view = None
         # self.flow is None when this node has no flow (either because
@@ -536,6 +539,14 @@ class Store:
                 str(self.default), str(new_default), str(new_default))
         return new_default
 
+    def _infer_quantity_serializer(self):
+        """A variable with units is serialized as a quantity, unless a
+        serializer is declared for it."""
+        if self.serializer is None:
+            self.serializer = serializer_registry.access(
+                str(QuantitySerializer.python_type))
+            self.serializer_inferred = True
+
     def _check_dimensions(self, quantity):
         """Check a quantity (a default or value of this variable) against
         the units the variable already has.
@@ -740,14 +751,18 @@ class Store:
             if '_units' in config:
                 self.units = self._check_schema(
                     'units', config.get('_units'))
-                self.serializer = serializer_registry.access(
-                    str(QuantitySerializer.python_type))
+                self._infer_quantity_serializer()
 
             if '_serializer' in config:
                 serializer = config['_serializer']
                 if isinstance(serializer, str):
                     serializer = serializer_registry.access(
                         serializer)
+                if self.serializer_inferred:
+                    # a declared serializer takes the place of the one
+                    # that was only inferred from units or a default
+                    self.serializer = None
+                    self.serializer_inferred = False
                 self.serializer = self._check_schema(
                     'serializer', serializer)
 
@@ -756,17 +771,13 @@ class Store:
                 if isinstance(self.default, Quantity):
                     self._check_dimensions(self.default)
                     self.units = self.units or self.default.units
-                    self.serializer = (self.serializer or
-                                       serializer_registry.access(
-                                        str(QuantitySerializer.python_type)))
+                    self._infer_quantity_serializer()
                 elif isinstance(self.default, list) and \
                         len(self.default) > 0 and \
                         isinstance(self.default[0], Quantity):
                     self._check_dimensions(self.default[0])
                     self.units = self.units or self.default[0].units
-                    self.serializer = (self.serializer or
-                                       serializer_registry.access(
-                                        str(QuantitySerializer.python_type)))
+                    self._infer_quantity_serializer()
 
             if '_value' in config:
                 self.value = self._check_schema(
